@@ -164,7 +164,7 @@ def main():
         if not coverage_complete(ck, uni, results):
             ck.inconclusive.append('%s: path conditions do not cover the input space' % name)
         # (c) truth table
-        def on_sat(model, name=name, res=res, oracle=oracle, ej=ej):
+        def on_sat(model, name=name, res=res, oracle=oracle, ej=ej, ids=ids):
             ops = [SOLVER_RESULT[model.eval(r, model_completion=True).as_long()] for r in rs]
             cv = model.eval(c, model_completion=True).as_long()
             got = SOLVER_RESULT[model.eval(res, model_completion=True).as_long()]
@@ -173,7 +173,7 @@ def main():
             key = 'connective:%s' % role
             # confirm through the real code: only forms that can be written as a rule are replayable;
             # leaves become `Li: {fi: 'v'}` predicates and the document supplies T/F/M per leaf
-            rep = replay_form(ck, name, ej, ops, cv, got, want)
+            rep = replay_form(ck, name, ej, ops, cv, got, want, ids)
             if rep is None:
                 return ('spurious', 'form %s not replayable natively' % name)
             ok_native, path = rep
@@ -211,85 +211,51 @@ def main():
     ck.finish('connective forms x arity; operands and thresholds symbolic; z3 decides result != truth table per form')
 
 
-def leaf_rule(i):
-    return 'f%d: v' % i
+def real_leaf(i):
+    return {'t': 'Search', 's': {'t': 'Exact', 'v': list(b'v')}, 'f': list(('f%d' % i).encode()), 'c': False}
 
 
-def replay_form(ck, name, ej, ops, cv, got, want):
-    """render the form as a rule + document and evaluate natively.  Returns
-    (violates, replay_path) or None when the form has no rule spelling."""
-    k = int(name.split('/')[1])
-    role = name.split('/')[0]
-    idents = {}
-    for i in range(k):
-        idents['L%d' % i] = '    f%d: v' % i
-    cond = None
-    opts = None
-    names = ['L%d' % i for i in range(k)]
-    if role.startswith('binary-and'):
-        cond = ' and '.join(names) if 'left' in role else _right(names, 'and')
-    elif role.startswith('binary-or'):
-        cond = ' or '.join(names) if 'left' in role else _right(names, 'or')
-    elif role in ('not',):
-        cond = 'not L0'
-    elif role == 'identifier':
-        cond = 'L0'
-    elif role in ('of-identifier-single', 'all-identifier-single', 'of-inline-single', 'all-inline-single'):
-        cond = ('of(L0, %d)' % cv) if role.startswith('of') else 'all(L0)'
-        if 'inline' in role:
-            opts = [True, False, False, False]      # coalesce inlines the identifier
-    elif role.split('-group-')[0] in ('of-identifier', 'all-identifier', 'of-inline', 'all-inline'):
-        gop = role.split('-group-')[1]
-        if k == 1:
-            return None
-        if gop == 'Or':
-            # identifier X as a sequence of mappings (an Or group of its entries)
-            idents = {'X': '\n'.join('    - f%d: v' % i for i in range(k))}
-        else:
-            # identifier X as one mapping with k entries (an And group)
-            idents = {'X': '\n'.join('    f%d: v' % i for i in range(k))}
-        cond = ('of(X, %d)' % cv) if role.startswith('of') else 'all(X)'
-        if 'inline' in role:
-            opts = [True, False, False, False]
-    elif role in ('group-or', 'group-and'):
-        if k == 1:
-            return None
-        if role == 'group-or':
-            idents = {'X': '\n'.join('    - f%d: v' % i for i in range(k))}
-        else:
-            idents = {'X': '\n'.join('    f%d: v' % i for i in range(k))}
-        cond = 'X'
-    else:
-        return None
-    if cv >= 2 ** 63:
-        return None
-    yaml = 'detection:\n' + ''.join('  %s:\n%s\n' % (n, b) for n, b in idents.items()) + \
-           '  condition: %s\ntrue_positives: []\ntrue_negatives: []\n' % cond
+def realise(ej, cv):
+    """the form with real leaves (fi == 'v') and a concrete threshold"""
+    if isinstance(ej, dict):
+        if ej.get('t') == 'Field' and bytes(ej['f']).startswith(b'L'):
+            return real_leaf(int(bytes(ej['f'])[1:]))
+        out = {k: realise(v, cv) for k, v in ej.items()}
+        if out.get('t') == 'Match' and out.get('m') == 'SYM':
+            out['m'] = cv
+        return out
+    if isinstance(ej, list):
+        return [realise(x, cv) for x in ej]
+    return ej
+
+
+def replay_form(ck, name, ej, ops, cv, got, want, ids=None):
+    """evaluate the same form natively (bridge eval_tree on the exported-tree
+    format, leaves = `fi: v` predicates, document supplies true/false/missing
+    per leaf).  The native API only shows "is true", so the three-valued result
+    is read off the tree and its negation.  Returns (violates, replay_path)."""
+    tree = realise(ej, cv)
+    idents = [[list(k), realise(v, cv)] for k, v in (ids or {}).items()]
     fields = []
-    for i in range(k):
-        if ops[i] == 'True':
+    for i, o in enumerate(ops):
+        if o == 'True':
             fields.append([list(('f%d' % i).encode()), {'$str': list(b'v')}])
-        elif ops[i] == 'False':
+        elif o == 'False':
             fields.append([list(('f%d' % i).encode()), {'$str': list(b'w')}])
     docj = {'$obj': fields}
     br = ck.bridge()
-    r = br.call(cmd='eval', yaml=yaml, opts=opts, doc=docj, mode='flat')
-    path = ck.write_replay(name.replace('/', '_'), {'rule': yaml, 'opts': opts, 'doc': docj, 'native': r, 'engine_mir': got, 'truth_table': want,
-                                                    'operands': ops, 'threshold': cv})
-    if 'verdict' not in r:
-        return (True, path) if 'panic' in r else None
-    native_true = r['verdict']
+    r1 = br.call(cmd='eval_tree', expr=tree, idents=idents, doc=docj, mode='flat')
+    r2 = br.call(cmd='eval_tree', expr={'t': 'Negate', 'e': tree}, idents=idents, doc=docj, mode='flat')
+    path = ck.write_replay(name.replace('/', '_'), {'tree': tree, 'idents': idents, 'doc': docj, 'native': r1, 'native_negated': r2,
+                                                    'engine_mir': got, 'truth_table': want, 'operands': ops, 'threshold': cv,
+                                                    'request': {'cmd': 'eval_tree', 'expr': tree, 'idents': idents, 'doc': docj, 'mode': 'flat'}})
+    if 'panic' in r1 or 'panic' in r2:
+        return (True, path)
+    if 'verdict' not in r1 or 'verdict' not in r2:
+        return None
+    native = 'True' if r1['verdict'] else ('False' if r2['verdict'] else 'Missing')
     ck.replays_ok += 1
-    # the native API only shows "is True"; a disagreement is confirmed when the
-    # native verdict differs from what the table says about truth
-    return (native_true != (want == 'True'), path)
-
-
-def _right(names, op):
-    s = names[-1]
-    for n in reversed(names[:-1]):
-        s = '%s %s (%s)' % (n, op, s)
-    return s
+    return (native != want, path)
 
 
 if __name__ == '__main__':
